@@ -126,6 +126,8 @@ Definition modelled_atomic : list (string * string * bool) :=   (* method, mutex
     ("formattedstore.formatStore.Batch", "formattedstore.formatStore.lock", true);
     ("formattedstore.formatStore.Flush", "formattedstore.formatStore.lock", true);
     ("did.Store.SaveDID", "did.Store.saveLock", true);
+    ("wallet.walletSessionManager.getSession", "wallet.walletSessionManager.mu", true);
+    ("wallet.contentStore.safeSave", "wallet.contentStore.saveLock", true);
     ("leveldb.Provider.OpenStore", "leveldb.Provider.lock", true) ].
 (* where a method also serves a mode that needs no lock (deterministic keys: one call on the store below), only the
    calls on these fields are required to be inside the region *)
